@@ -858,4 +858,76 @@ theorem interleave_get : ∀ (a b : List Int) (i : Nat), i < a.length → i < b.
         simp only [interleave, e1, e2, List.getElem?_cons_succ]
         exact this
 
+/-! ## maximum / minimum (`G` / `g`: of the leaves, by a left fold with `<`) -/
+
+theorem foldl_max_spec (xs : List Int) : ∀ (x : Int),
+    (xs.foldl (fun a b => if a < b then b else a) x ∈ x :: xs) ∧ ∀ y ∈ x :: xs, y ≤ xs.foldl (fun a b => if a < b then b else a) x := by
+  induction xs with
+  | nil => intro x; simp
+  | cons z zs ih =>
+    intro x
+    simp only [List.foldl_cons]
+    obtain ⟨hm, hle⟩ := ih (if x < z then z else x)
+    constructor
+    · rcases List.mem_cons.mp hm with h | h
+      · rw [h]; split <;> simp
+      · simp [h]
+    · intro y hy
+      have h0 := hle (if x < z then z else x) (by simp)
+      rcases List.mem_cons.mp hy with rfl | hy
+      · have : y ≤ (if y < z then z else y) := by split <;> omega
+        omega
+      · rcases List.mem_cons.mp hy with rfl | hy
+        · have : y ≤ (if x < y then y else x) := by split <;> omega
+          omega
+        · exact hle y (by simp [hy])
+
+theorem foldl_min_spec (xs : List Int) : ∀ (x : Int),
+    (xs.foldl (fun a b => if b < a then b else a) x ∈ x :: xs) ∧ ∀ y ∈ x :: xs, xs.foldl (fun a b => if b < a then b else a) x ≤ y := by
+  induction xs with
+  | nil => intro x; simp
+  | cons z zs ih =>
+    intro x
+    simp only [List.foldl_cons]
+    obtain ⟨hm, hle⟩ := ih (if z < x then z else x)
+    constructor
+    · rcases List.mem_cons.mp hm with h | h
+      · rw [h]; split <;> simp
+      · simp [h]
+    · intro y hy
+      have h0 := hle (if z < x then z else x) (by simp)
+      rcases List.mem_cons.mp hy with rfl | hy
+      · have : (if z < y then z else y) ≤ y := by split <;> omega
+        omega
+      · rcases List.mem_cons.mp hy with rfl | hy
+        · have : (if y < x then y else x) ≤ y := by split <;> omega
+          omega
+        · exact hle y (by simp [hy])
+
+/-- **maximum**: one of the leaves, and no leaf is greater; no leaves, no maximum -/
+theorem max_spec (t : T) : (vyMax t = none ↔ flattenT t = []) ∧ ∀ m, vyMax t = some m → m ∈ flattenT t ∧ ∀ y ∈ flattenT t, y ≤ m := by
+  unfold vyMax
+  cases h : flattenT t with
+  | nil => simp [maxFold]
+  | cons x xs =>
+    refine ⟨by simp [maxFold], ?_⟩
+    intro m hm
+    simp only [maxFold, Option.some.injEq] at hm
+    subst hm
+    exact foldl_max_spec xs x
+
+theorem min_spec (t : T) : (vyMin t = none ↔ flattenT t = []) ∧ ∀ m, vyMin t = some m → m ∈ flattenT t ∧ ∀ y ∈ flattenT t, m ≤ y := by
+  unfold vyMin
+  cases h : flattenT t with
+  | nil => simp [minFold]
+  | cons x xs =>
+    refine ⟨by simp [minFold], ?_⟩
+    intro m hm
+    simp only [minFold, Option.some.injEq] at hm
+    subst hm
+    exact foldl_min_spec xs x
+
+example : vyMax (.node [.leaf 3, .node [.leaf (-7), .leaf 9], .leaf 9]) = some 9 ∧ vyMin (.node [.leaf 3, .node [.leaf (-7)]]) = some (-7)
+    ∧ vyMax (.node [.node []]) = none := by decide
+
 end C16
